@@ -81,3 +81,67 @@ package bfe_bufio
 //@   ensures[wf] wfR(b)
 //@   ensures[partial_line_counter_equals_bytes_delivered] isPrefix ==> b.TotalRead == old(b.TotalRead) + len(line)
 //@   ensures[full_line_counter_is_line_plus_terminator] !isPrefix ==> old(b.TotalRead) + len(line) <= b.TotalRead && b.TotalRead <= old(b.TotalRead) + len(line) + 2
+
+// ---- C22: the buffered writer's counter ----
+// TotalWrite advances by exactly what each writing operation reports as accepted, on every path (including the
+// error paths), and the buffer fill level stays inside the buffer.
+
+//@ spec wfW(b *Writer) bool := b != nil && b.wr != nil && 0 <= b.n && b.n <= len(b.buf) && len(b.buf) <= cap(b.buf)
+
+//@ func (*Writer).Available
+//@   props C22
+//@   nopanic
+//@   requires b != nil && 0 <= b.n && b.n <= len(b.buf)
+//@   modifies nothing
+//@   ensures result0 == len(b.buf) - b.n
+
+//@ func (*Writer).Buffered
+//@   props C22
+//@   nopanic
+//@   requires b != nil
+//@   modifies nothing
+//@   ensures result0 == b.n
+
+//@ func (*Writer).flush
+//@   props C22
+//@   nopanic
+//@   requires wfW(b)
+//@   modifies b.n, b.err, b.buf[..]
+//@   ensures[the_fill_level_only_shrinks] wfW(b) && b.n <= old(b.n)
+//@   ensures[the_result_is_the_sticky_error] (result0 != nil) <==> (b.err != nil)
+//@   ensures[success_empties_the_buffer] result0 == nil ==> b.n == 0
+
+//@ func (*Writer).Write
+//@   props C22
+//@   requires 0 <= b.TotalWrite && b.TotalWrite <= 4611686018427387904
+//@   nopanic
+//@   requires wfW(b)
+//@   modifies b.n, b.err, b.buf[..], b.TotalWrite
+//@   ensures[the_counter_advances_by_what_was_accepted] b.TotalWrite == old(b.TotalWrite) + result0 && 0 <= result0 && result0 <= len(p)
+//@   ensures wfW(b)
+//@   loop 1 invariant[accepted_plus_rest_is_the_input] wfW(b) && 0 <= nn && nn + len(p) == old(len(p)) && b.TotalWrite == old(b.TotalWrite)
+
+//@ func (*Writer).WriteByte
+//@   props C22
+//@   requires 0 <= b.TotalWrite && b.TotalWrite <= 4611686018427387904
+//@   nopanic
+//@   requires wfW(b) && len(b.buf) >= 1
+//@   modifies b.n, b.err, b.buf[..], b.TotalWrite
+//@   ensures[one_byte_counted_iff_accepted] b.TotalWrite == old(b.TotalWrite) + (result0 == nil ? 1 : 0)
+//@   ensures wfW(b)
+
+//@ func (*Writer).ReadFrom
+//@   props C22
+//@   requires 0 <= b.TotalWrite && b.TotalWrite <= 4611686018427387904
+//@   nopanic nil,index,slice
+//@   requires wfW(b) && r != nil
+//@   frame Warn pure
+//@   note the counter is assumed below 2^62 (and the amount one ReadFrom takes below 2^61) so that the additions do not wrap
+//@   modifies b.n, b.err, b.buf[..], b.TotalWrite
+//@   ensures[the_counter_advances_by_what_was_taken] b.TotalWrite == old(b.TotalWrite) + int(result0) && result0 >= 0
+//@   ensures wfW(b)
+//@   assume[one_call_takes_less_than_2_61_bytes] at "n += int64(m)" :: n <= 2305843009213693952
+//@   assume[the_underlying_copy_takes_less_than_2_61_bytes] at "b.TotalWrite += int(n)" #1 :: n <= 2305843009213693952
+//@   loop 1 invariant[the_fill_level_stays_inside_the_buffer] wfW(b)
+//@   loop 1 invariant[taken_so_far_is_bounded] n >= 0 && n <= 2305843009213693952 + 2199023255552
+//@   loop 1 invariant[nothing_counted_yet] b.TotalWrite == old(b.TotalWrite)
